@@ -35,6 +35,7 @@ type Opts struct {
 	WordNames      bool // identifiers match \w+ only (no spaces): the regex-based recovery in the SQLite inspector is known to fail otherwise
 	KeyColumn      bool // every table gets a never-edited unique key column "k" (C05)
 	SimpleDefaults bool
+	Kinds          []string // restrict Edit to these kinds (nil = all)
 }
 
 func isNumeric(typ string) bool {
